@@ -65,6 +65,19 @@ def _install():
         REC.events.append({"ev": "Rec", "framer": a.frame.framer.name, "frame": a.frame.name,
                            "ctx": _ctxname(a.context), "tag": tag})
 
+    # fiats report whether the requested state was reached: observe the value the act returns
+    from ioflo.base import fiating
+    for cname in ("FiatReady", "FiatStart", "FiatRun", "FiatStop", "FiatAbort"):
+        cls = getattr(fiating, cname, None)
+        if cls is not None and "action" in cls.__dict__:
+            def wrap(orig, ctl):
+                def action(self, tasker, **kw):
+                    ok = orig(self, tasker=tasker, **kw)
+                    REC.events.append({"ev": "Fiat", "t": tasker.name, "ctl": ctl, "ok": bool(ok)})
+                    return ok
+                return action
+            cls.action = wrap(cls.__dict__["action"], cname[4:].lower())
+
     @doing.doify('Vfraise')
     def vfraise(self, what="error", **kw):
         REC.events.append({"ev": "Raise", "what": what})
